@@ -48,9 +48,13 @@ pub struct Base {
 
 pub const SMOKE_SEED: u64 = 7;
 
-pub fn build_base() -> Result<Base, String> {
-    let pp = setup(16);
-    let program = allsel_program(1, 0, 1);
+/// `extra_rows` raw rows beyond the two of the smallest base (size 8): the
+/// same abstract inputs can be replayed on a larger object of the same shape.
+pub fn build_base_sized(extra_rows: usize) -> Result<Base, String> {
+    let rows = 4 + 1 + 2 + extra_rows;
+    let cap = (rows + 6).next_power_of_two();
+    let pp = setup(cap);
+    let program = allsel_program(1, extra_rows, 1);
     let obj = compile(&pp, b"codec-base", &program)?;
     let prover_bytes = obj.prover.to_bytes();
     let verifier_bytes = obj.verifier.to_bytes();
@@ -80,6 +84,10 @@ pub fn build_base() -> Result<Base, String> {
     let alt_proof = alt_pr.ok_or("alt circuit does not prove")?.0;
     let alt = [alt_proof, alt_obj.verifier.to_bytes(), alt_obj.prover.to_bytes(), alt_pp.to_var_bytes()];
     Ok(Base { alt, pp, obj, prover_bytes, verifier_bytes, proof_bytes, pis, pp_bytes })
+}
+
+pub fn build_base() -> Result<Base, String> {
+    build_base_sized(0)
 }
 
 fn apply_total(m: &str, bytes: &mut Vec<u8>, class: &str) -> Result<(), String> {
@@ -249,7 +257,7 @@ pub fn observe(base: &Base, m: &str, bytes: &[u8]) -> Value {
     }
 }
 
-fn replay() -> i32 {
+fn replay(extra_rows: usize) -> i32 {
     let reps = match Reps::build() {
         Ok(r) => r,
         Err(e) => {
@@ -257,7 +265,7 @@ fn replay() -> i32 {
             return 2;
         }
     };
-    let base = match build_base() {
+    let base = match build_base_sized(extra_rows) {
         Ok(b) => b,
         Err(e) => {
             println!("{}", json!({"fatal": e}));
@@ -360,7 +368,13 @@ fn main() {
                 2
             }
         },
-        "replay" => replay(),
+        "replay" => replay(
+            args.iter()
+                .position(|a| a == "--extra-rows")
+                .and_then(|i| args.get(i + 1))
+                .and_then(|s| s.parse().ok())
+                .unwrap_or(0),
+        ),
         "pkenc" => rt::pkenc(),
         "roundtrip" => rt::roundtrip(&tier),
         "qm" => rt::qm(),
